@@ -28,11 +28,11 @@ META = {
     'assumptions': ['shadow model semantics (mtv/shadow.py)', 'PyYAML / json as libraries'],
     'shards': {'quick': 8, 'thorough': 16},
     'quotas': {
-        'quick': {'format:json': 200, 'format:yml': 200, 'format:yaml': 100, 'class:id-0': 100, 'class:negative-id': 50,
-                  'class:id-gap': 100, 'class:nondefault-defense': 100, 'class:asset-extras': 50, 'class:assoc-extras': 50,
+        'quick': {'format:json': 80, 'format:yml': 100, 'format:yaml': 90, 'class:id-0': 100, 'class:negative-id': 50,
+                  'class:id-gap': 100, 'class:nondefault-defense': 100, 'class:asset-extras': 50, 'class:assoc-extras': 40,
                   'class:attackers>=2': 50, 'class:hostile-name': 100, 'handwritten:permuted': 100,
                   'handwritten:shorthand': 30, 'handwritten:scalar-target': 30, 'handwritten:id0-not-first': 30,
-                  'resave-compared': 500, 'class:default-on-defense-off': 20},
+                  'resave-compared': 300, 'class:default-on-defense-off': 20},
         'thorough': {'format:json': 20000, 'format:yml': 20000, 'format:yaml': 10000, 'class:id-0': 5000,
                      'class:assoc-extras': 3000, 'handwritten:permuted': 5000, 'handwritten:shorthand': 1000,
                      'handwritten:scalar-target': 1000, 'resave-compared': 40000},
